@@ -226,4 +226,127 @@ Proof.
     rewrite Hc. eexists; reflexivity.
 Qed.
 
+(* ---------- keyword ---------- *)
+(* the tokens of the maximal class-f run at p *)
+Definition run_toks (f : tok -> bool) (p : nat) : list tok := firstn (run_len f p) (skipn p toks).
+
+Lemma run_toks_step f p :
+  run_toks f p = match nth_error toks p with Some t => if f t then t :: run_toks f (S p) else [] | None => [] end.
+Proof.
+  unfold run_toks. rewrite (run_len_step f p), (skipn_nth toks p).
+  destruct (nth_error toks p) as [t|]; [destruct (f t)|]; reflexivity.
+Qed.
+
+(* the maximal run again, now with the collected values: the run's tokens, in input order *)
+Lemma rep_class_items n f k ctx : forall fuel c sacc sacce p r,
+  run_len f p < fuel ->
+  exists items r',
+    sdrive toks spn (sem (S (S n))) fuel (IRep (t_class (PFun f) k) 0 None) ctx (SCount c) None sacc sacce p r =
+      Some (Some (items, true, p + run_len f p, sacce), r') /\
+    rev (map sitem_val items) = rev (map sitem_val sacc) ++ map VTok (run_toks f p).
+Proof.
+  induction fuel as [|fuel IH]; intros c sacc sacce p r Hf; [lia|].
+  cbn [sdrive it_snext]. unfold rep_snext. cbn [at_cap].
+  destruct (class_step n f k ctx p r) as (a' & ->).
+  rewrite (run_toks_step f p). rewrite (run_len_step f p) in *. destruct (nth_error toks p) as [t|].
+  - destruct (f t); cbn [option_map].
+    + destruct (IH (S c) ((VTok t, p, S p) :: sacc) (sacce ++ []) (S p) r ltac:(lia)) as (items & r' & -> & Hv).
+      replace (S p + run_len f (S p)) with (p + S (run_len f (S p))) by lia.
+      rewrite app_nil_r. do 2 eexists. split; [reflexivity|]. rewrite Hv. cbn [map rev sitem_val]. now rewrite <- app_assoc.
+    + cbn [Nat.leb]. rewrite ?Nat.add_0_r, ?app_nil_r. do 2 eexists. split; [reflexivity|]. cbn. rewrite ?app_nil_r. reflexivity.
+  - cbn [Nat.leb]. rewrite ?Nat.add_0_r, ?app_nil_r. do 2 eexists. split; [reflexivity|]. cbn. rewrite ?app_nil_r. reflexivity.
+Qed.
+
+Lemma sem_TryMap_S n pr f k x ctx p a :
+  sem (S n) (TryMap pr f k x) ctx p a =
+    match sem n x ctx p None with
+    | Some (Some (v, p1, e1), new) =>
+        if holds pr v then Some (Some (ap1 f v, p1, e1), join K a new)
+        else Some (None, ee K a p (custom_err K k (spn p p1)))
+    | Some (None, new) => Some (None, join K a new)
+    | None => None
+    end.
+Proof. reflexivity. Qed.
+
+Lemma sem_Collect_S n c i ctx p a :
+  sem (S n) (Collect c i) ctx p a =
+    match sdrive toks spn (sem n) n i ctx (mk_iter i ctx) None [] [] p a with
+    | Some (Some (items, _, p1, e1), a1) =>
+        Some (Some (match c with
+                    | CVec => VList (rev (map sitem_val items))
+                    | CCount => VNat (length items)
+                    | CUnit => VUnit
+                    end, p1, e1), a1)
+    | Some (None, a1) => Some (None, a1)
+    | None => None
+    end.
+Proof. reflexivity. Qed.
+
+Lemma flat_map_VTok l : flat_map val_toks (map VTok l) = l.
+Proof. induction l as [|t l IH]; cbn; [reflexivity|now rewrite IH]. Qed.
+
+(* text::keyword(k): the MAXIMAL identifier at p must be exactly k -- so k followed by further identifier characters
+   (k as a proper prefix of a longer identifier) is not a match, and neither is a proper prefix of k *)
+Theorem keyword_lang n fs fc kw ctx p a :
+  run_len fc (S p) < S (S n) ->
+  exists a',
+    sem (S (S (S (S (S (S n)))))) (text_keyword (PFun fs) (PFun fc) kw) ctx p a =
+      match nth_error toks p with
+      | Some t =>
+          if fs t then
+            if list_eqN (t :: run_toks fc (S p)) kw
+            then Some (Some (VSlice p (S p + run_len fc (S p)), S p + run_len fc (S p), []), a')
+            else Some (None, a')
+          else Some (None, a')
+      | None => Some (None, a')
+      end.
+Proof.
+  intros Hf. unfold text_keyword, text_ident_toks. rewrite sem_ToSlice_S, sem_TryMap_S, sem_Then_S.
+  destruct (class_step (S n) fs 22 ctx p None) as (a1 & ->).
+  destruct (nth_error toks p) as [t|]; [|eauto]. destruct (fs t); [|eauto].
+  rewrite sem_Collect_S. cbn [mk_iter].
+  destruct (rep_class_items n fc 22 ctx (S (S n)) 0 [] [] (S p) None Hf) as (items & r' & -> & Hv).
+  cbn [holds val_toks]. rewrite Hv. cbn [rev map app]. rewrite flat_map_VTok. cbn [app].
+  destruct (list_eqN (t :: run_toks fc (S p)) kw); eauto.
+Qed.
+
+(* a.padded(): skip the maximal whitespace run, run a, skip the maximal whitespace run *)
+Lemma sem_PaddedBy_S n x pd ctx p a :
+  sem (S n) (PaddedBy x pd) ctx p a =
+    match sem n pd ctx p a with
+    | Some (Some (_, p1, e1), a1) =>
+        match sem n x ctx p1 a1 with
+        | Some (Some (va, p2, e2), a2) =>
+            match sem n pd ctx p2 a2 with
+            | Some (Some (_, p3, e3), a3) => Some (Some (va, p3, (e1 ++ e2) ++ e3), a3)
+            | Some (None, a3) => Some (None, a3)
+            | None => None
+            end
+        | Some (None, a2) => Some (None, a2)
+        | None => None
+        end
+    | Some (None, a1) => Some (None, a1)
+    | None => None
+    end.
+Proof. reflexivity. Qed.
+
+Theorem padded_lang n fws x ctx p a :
+  run_len fws p < S (S n) ->
+  exists a1,
+    match sem (S (S (S n))) x ctx (p + run_len fws p) a1 with
+    | Some (Some (va, p2, e2), a2) =>
+        run_len fws p2 < S (S n) ->
+        exists a3, sem (S (S (S (S n)))) (text_padded (PFun fws) x) ctx p a = Some (Some (va, p2 + run_len fws p2, e2), a3)
+    | Some (None, a2) => sem (S (S (S (S n)))) (text_padded (PFun fws) x) ctx p a = Some (None, a2)
+    | None => sem (S (S (S (S n)))) (text_padded (PFun fws) x) ctx p a = None
+    end.
+Proof.
+  intros Hf. unfold text_padded, text_whitespace. rewrite sem_PaddedBy_S, sem_RepUnit_S. cbn [mk_iter].
+  destruct (rep_class n fws 24 0 ctx (S (S n)) 0 [] [] p a Hf) as (items & r' & ->). cbn [Nat.leb Nat.add].
+  exists r'. destruct (sem (S (S (S n))) x ctx (p + run_len fws p) r') as [[[[[va p2] e2]|] a2]|]; auto.
+  intros Hf2. rewrite sem_RepUnit_S. cbn [mk_iter].
+  destruct (rep_class n fws 24 0 ctx (S (S n)) 0 [] [] p2 a2 Hf2) as (items2 & r2 & ->). cbn [Nat.leb Nat.add].
+  exists r2. now rewrite app_nil_r.
+Qed.
+
 End TextP.
